@@ -57,6 +57,27 @@ USER_SPECS = [
     ("user:TN93-solved", dict(cls="solved", name="TN93")),
     ("user:F81-solved", dict(cls="solved", name="F81")),
     ("user:Stationary-asym", dict(cls="Stationary", preds=["A>G"], mprob="tuple")),
+    # every motif-prob option on an INCOMPLETE word alphabet (sense codons) and on complete 2-/3-mer alphabets
+    ("user:Codon-tuple", dict(cls="TimeReversibleCodon", preds=["kappa", "omega"], mprob="tuple")),
+    ("user:Codon-conditional", dict(cls="TimeReversibleCodon", preds=["kappa", "omega"], mprob="conditional")),
+    ("user:Codon-monomer", dict(cls="TimeReversibleCodon", preds=["kappa", "omega"], mprob="monomer")),
+    ("user:Codon-monomers", dict(cls="TimeReversibleCodon", preds=["kappa", "omega"], mprob="monomers")),
+    ("user:Codon-default", dict(cls="TimeReversibleCodon", preds=["kappa", "omega"], mprob=None)),
+    ("user:NRCodon-monomers", dict(cls="NonReversibleCodon", preds=["A>G", "omega"], mprob="monomers")),
+    ("user:TRDi-default", dict(cls="TimeReversibleDinucleotide", preds=["kappa"], mprob=None)),
+    ("user:TRTri-monomers", dict(cls="TimeReversibleTrinucleotide", preds=["kappa"], mprob="monomers")),
+    ("user:TRTri-conditional", dict(cls="TimeReversibleTrinucleotide", preds=["kappa"], mprob="conditional")),
+    # multi-predicate models with ONE directed predicate in every position: a time-reversible class must either reject
+    # them (ValueError) or be balanced
+    ("user:TRN-asym-first", dict(cls="TimeReversibleNucleotide", preds=["A>G", "kappa"], mprob="tuple")),
+    ("user:TRN-asym-middle", dict(cls="TimeReversibleNucleotide", preds=["A/C", "C>T", "A/G"], mprob="tuple")),
+    ("user:TRN-asym-last", dict(cls="TimeReversibleNucleotide", preds=["kappa", "T>A"], mprob="tuple")),
+    ("user:TRDi-asym-first", dict(cls="TimeReversibleDinucleotide", preds=["A>G", "kappa"], mprob="conditional")),
+    ("user:TRDi-asym-middle", dict(cls="TimeReversibleDinucleotide", preds=["kappa", "CG>TG", "A/C"], mprob="tuple")),
+    ("user:TRCodon-asym-first", dict(cls="TimeReversibleCodon", preds=["A>G", "kappa", "omega"], mprob="tuple")),
+    ("user:TRCodon-asym-middle", dict(cls="TimeReversibleCodon", preds=["kappa", "C>T", "omega"], mprob="tuple")),
+    ("user:TRProtein-asym-first", dict(cls="TimeReversibleProtein", preds=["A>C", "D/E"], mprob="tuple")),
+    ("user:TRProtein-asym-middle", dict(cls="TimeReversibleProtein", preds=["D/E", "K>R", "I/L"], mprob="tuple")),
 ]
 USER = dict(USER_SPECS)
 
@@ -69,6 +90,10 @@ def _pred(s):
         return (kappa_y | kappa_r).aliased("kappa")
     if s == "indel":
         return "indel"
+    if s == "omega":
+        from cogent3.evolve.predicate import omega
+
+        return omega
     if s == "CG":
         return MotifChange("CG").aliased("CG")
     if ">" in s:
@@ -78,9 +103,22 @@ def _pred(s):
     return MotifChange(a, b)
 
 
+_REJECTED = {}
+
+
 def get_user(label):
     if label in _MODEL_CACHE:
         return _MODEL_CACHE[label]
+    if label in _REJECTED:  # the constructor refused this model before: do not pay for the construction again
+        raise _REJECTED[label]
+    try:
+        return _get_user(label)
+    except (ValueError, AssertionError) as e:
+        _REJECTED[label] = e
+        raise
+
+
+def _get_user(label):
     from cogent3.core.moltype import DNA
     from cogent3.evolve import ns_substitution_model as ns
     from cogent3.evolve import substitution_model as sub
